@@ -65,7 +65,8 @@ CHECKS = {
             "certificate (SpecTerm.run_terminates; certificate computed by the extracted wf_auto), hence totality "
             "(C07_total); the interpreter model never crashes (refinement). Outside the model: CPython's "
             "recursion limit and memory (e.g. \"x\"{999999999}). Check: exception type escaping each mode, repeated "
-            "call equality, every parse under a timer.",
+            "call equality, an unrelated canary parser (interpreter and generated module) that must keep returning its "
+            "one untagged pair after every call (state that outlives a parse), every parse under a timer.",
             "4.C07", PARSE_TECH),
     "C16": ("proof", "Theorem (SpecShift.v): for SOI-free grammars run commutes with shifting positions, hence "
             "parse(text, k) = shift k (parse(text[k:], 0)) and the prefix is irrelevant; counter-example with SOI. "
@@ -101,8 +102,11 @@ CHECKS = {
             "subset, order or repetition of these two passes preserves every parse; hypotheses: distinct rule names, "
             "no user rule on the reserved SKIP identifier, e{m,n} with m <= n, built-in entries are plain silent rules - "
             "checked per grammar on every run); their tie is exact: the table each real pass produces alone must be "
-            "identical to the table the extracted model computes (~12000 comparisons per quick run). Not modelled: the "
-            "skip, squash_choice and inline_silent passes themselves (validated output only) and sequences involving them; "
+            "identical to the table the extracted model computes (~12000 comparisons per quick run). C02_unroll_pass_idempotent. "
+            "The in-place passes `inline silent` (with the _refers_to cycle check) and `skip` (with _skip and "
+            "never_skips_trivia) are modelled too (OptPassSilent.v, OptPassSkip.v) and tied exactly, alone and in short "
+            "sequences (~44000 table comparisons per quick run), but NOT proved; squash_choice is not modelled; for these "
+            "three the property rests on the validation of the real output; "
             "the exporter reads the compiled regex text of an OptimizedChoice and maps it to terminals (trusted). The fused SKIP rule is "
             "validated too (OptSkip.ochk_skip; C02_fused_skip_rule_is_implicit_skipping: one call of SKIP = pest's implicit "
             "skipping of the original grammar); that the optimised parsers call SKIP at the places where the reference "
